@@ -77,7 +77,7 @@ def conversions(rep, cfg):
             p = find1(rep, cfg, "from_be_bytes_mod_order(%s)" % f, r"^fields::%s::arkworks::<impl ark_ff::PrimeField for .*>::from_be_bytes_mod_order$" % f)
             if p:
                 out = cfg.run(p, mode="glue")
-                ok, why = reduction_shape(out.value, f, mk("reversed", B))
+                ok, why = reduction_shape(out.value, f, mk("rev", B))
                 rep.ob("RED/%s/%s::from_be_bytes_mod_order" % (cfg.name, f), ok and not out.unmodelled, "big-endian reduction = reverse the bytes, then the LE reduction: " + why, where=cfg.where(p))
             p = find1(rep, cfg, "PrimeField::from_le_bytes_mod_order(%s)" % f, r"^fields::%s::arkworks::<impl ark_ff::PrimeField for .*>::from_le_bytes_mod_order$" % f)
             if p:
@@ -124,7 +124,7 @@ def conversions(rep, cfg):
         if p:
             out = cfg.run(p, mode="glue")
             S_, O_ = mk("param", "self"), mk("param", "other")
-            want = mk("lex_cmp", mk("reversed", mk("canon_limbs", S_)), mk("reversed", mk("canon_limbs", O_)))
+            want = mk("lex_cmp", mk("rev", mk("canon_limbs", S_)), mk("rev", mk("canon_limbs", O_)))
             rep.ob("ORD/%s/%s::cmp" % (cfg.name, f), out.value is want,
                    "ordering must compare the canonical limbs most-significant first (reverse both, then lexicographic): got %s" % Tm.show(out.value, maxdepth=5), where=cfg.where(p),
                    sample={"obligation": "ORD/%s/%s::cmp" % (cfg.name, f), "term": Tm.show(out.value, maxdepth=4)})
@@ -132,7 +132,7 @@ def conversions(rep, cfg):
         if p:
             out = cfg.run(p, mode="glue")
             S_, O_ = mk("param", "self"), mk("param", "other")
-            want = variant("Some", mk("lex_cmp", mk("reversed", mk("canon_limbs", S_)), mk("reversed", mk("canon_limbs", O_))))
+            want = variant("Some", mk("lex_cmp", mk("rev", mk("canon_limbs", S_)), mk("rev", mk("canon_limbs", O_))))
             rep.ob("ORD/%s/%s::partial_cmp" % (cfg.name, f), out.value is want, "partial_cmp must be Some(cmp); got %s" % Tm.show(out.value, maxdepth=5), where=cfg.where(p), nontrivial=False)
         p = find1(rep, cfg, "Hash(%s)" % f, r"^fields::%s::ops::<impl core::hash::Hash for %s>::hash$" % (f, re.escape(W)))
         if p:
@@ -333,15 +333,16 @@ def limb_glue(rep, cfg):
                 out = cfg.run(p, mode="deep")
                 v = out.value
                 Bt = mk("canon_bytes", field(mk("param", "self"), "0"))
-                okk = v.op == "array" and len(v.args) == n64 and all(
-                    v.args[i] is mk("u64_of_le_bytes", mk("array", *[Tm.index(Bt, lit(8 * i + j)) for j in range(8)])) for i in range(n64))
+                okk = v is mk("le_u64_limbs", Bt) and LIMBS64[f] * 8 == n8(f)
                 rep.ob("LIMBS/%s/%s::to_le_limbs" % (cfg.name, f), okk, "to_le_limbs must read limb i from canonical bytes 8i..8i+8 little-endian; got %s" % Tm.show(v, maxdepth=4), where=cfg.where(p))
             p = W + "::from_le_limbs"
             if p in cfg.prog.bodies:
                 out = cfg.run(p, mode="deep")
                 v = out.value
                 inner = field(v, "0") if v.op == "struct" else mk("bottom")
-                want = mk("from_le_bytes_mod_order", f, mk("array", *[Tm.index(mk("le_bytes_of_u64", Tm.index(L, lit(i))), lit(j)) for i in range(n64) for j in range(8)]))
+                if inner.op == "from_le_bytes_mod_order":
+                    inner = mk("from_le_bytes_mod_order", inner.args[0], Tm.norm_range_stores(inner.args[1]))
+                want = mk("from_le_bytes_mod_order", f, mk("le_bytes_of_u64_limbs", L, n64))
                 rep.ob("LIMBS/%s/%s::from_le_limbs" % (cfg.name, f), inner is want, "from_le_limbs must lay limb i out little-endian at bytes 8i..8i+8 and reduce; got %s" % Tm.show(inner, maxdepth=4), where=cfg.where(p))
 
 
